@@ -161,6 +161,7 @@ def renderAccesses (acc : List (String × Bytes)) : String :=
   "ACC " ++ ",".intercalate (acc.reverse.map (fun a => a.1 ++ ":" ++ hexN a.2)) ++ " | "
 
 def renderPErr (files : List ProjFile) (e : PErr) : String :=
+  if e.panic then "PANIC" else
   let content (f : Bytes) : Bytes := match files.find? (fun x => x.name == cleanName f) with
     | some x => x.content.toList
     | none => []
